@@ -46,6 +46,8 @@ VEq(a, b) ==
   IF a = b THEN TRUE
   ELSE IF a.p # b.p THEN FALSE
   ELSE CASE a.p = "float" -> IsNaN(FOf(a)) /\ IsNaN(FOf(b))
+         [] a.p = "decimal" -> DecEq(a, b)                               \* decimals compare by numeric value (1.20 = 1.2)
+         [] a.p = "datetime" -> a.aware = b.aware /\ EpochMicros(a, a.aware) = EpochMicros(b, b.aware)   \* aware datetimes: same instant
          [] a.p \in {"list", "tuple"} -> Len(a.it) = Len(b.it) /\ \A i \in 1..Len(a.it) : VEq(a.it[i], b.it[i])
          [] a.p = "dict" -> /\ Len(a.ks) = Len(b.ks)
                             /\ \A i \in 1..Len(a.ks) :
@@ -138,7 +140,8 @@ Norm(t0, v0, names, o) ==
   LET t == Deref(t0, names)
       pr == Prep(t, v0)
       v == pr.v
-      ok(x) == [ok |-> TRUE, v |-> Unprep(t, x)]         \* logical types are converted back by the reader
+      ok(x) == LET u == Unprep(t, x) IN                  \* logical types are converted back by the reader
+               IF u.p = "unrepresentable" THEN [ok |-> FALSE] ELSE [ok |-> TRUE, v |-> u]
       bad == [ok |-> FALSE]
   IN IF pr.st # "ok" THEN bad ELSE
   CASE t.k \in {"null", "boolean", "int", "long", "string", "enum", "fixed"} -> ok(v)
